@@ -195,3 +195,21 @@ def replay(ctx, path):
     same = a["root"] == b["root"] and sorted(str(g) for g in a["groups"]) == sorted(str(g) for g in b["groups"])
     print("replay: %s" % ("content preserved" if same else "content differs"))
     return 0 if same else 1
+
+
+def corpus(ctx, entry):
+    rp = entry["replay"]
+    nptdms = ctx.nptdms()
+    src = bytes.fromhex(rp["source"])
+    d = io.BytesIO()
+    try:
+        nptdms.TdmsWriter.defragment(io.BytesIO(src), d)
+        a = content(nptdms.TdmsFile.read(io.BytesIO(src), raw_timestamps=True))
+        b = content(nptdms.TdmsFile.read(io.BytesIO(d.getvalue()), raw_timestamps=True))
+    except Exception as ex:  # noqa
+        return [], [Violation("corpus: defragment / read raised %r" % ex, rp)]
+    ga = {g["name"]: g for g in a["groups"]}
+    gb = {g["name"]: g for g in b["groups"]}
+    same = a["root"] == b["root"] and sorted(ga) == sorted(gb) and all(
+        ga[n]["props"] == gb[n]["props"] and sorted(map(str, ga[n]["channels"])) == sorted(map(str, gb[n]["channels"])) for n in ga)
+    return [], ([] if same else [Violation("corpus: defragment changed the content", rp)])
